@@ -564,6 +564,8 @@ func (C13Mon) After(w *core.World, st *core.Step) {
 				id := "C13.metamorphic-identical-bytes"
 				if kind == "mtime-only" {
 					id = "C13.metamorphic-mtime"
+				} else if kind == "mode-only" {
+					id = "C13.metamorphic-mode"
 				}
 				c.Oracle(id)
 				if prev != st.Stdout {
@@ -622,7 +624,7 @@ func writeIgnoreScenario(k *Walker) {
 	var related [][2]string // paths that a second, related rule decides
 	if r.IntN(3) == 0 {
 		// two rules where one is a string prefix of the other, in either order: *.js / *.json, out/ / out2/
-		pairs := [][2]string{{".js", ".json"}, {".o", ".obj"}, {".c", ".cpp"}, {".log", ".log2"}, {".ext", ".ext2"}}
+		pairs := [][2]string{{".js", ".json"}, {".o", ".obj"}, {".c", ".cpp"}, {".log", ".log2"}, {".ext", ".ext2"}, {".gz", ".tar.gz"}, {".js", ".min.js"}, {".ts", ".d.ts"}, {".tar.gz", ".gz2"}}
 		pr := pairs[r.IntN(len(pairs))]
 		a, b := "*"+pr[0], "*"+pr[1]
 		if r.IntN(2) == 0 {
@@ -691,6 +693,14 @@ func writeIgnoreScenario(k *Walker) {
 	w.Write("a"+e+"ra", k.content())   // near miss: a.extra
 	w.Write("x.goit/f", k.content())   // near miss of Goit's own directory
 	w.Write(".goitx/g", k.content())   // near miss
+	if r.IntN(3) == 0 {
+		// more names next to Goit's own directory: trailing dots / blanks, other letter case, as a directory deeper down
+		w.Write(".goit./c.txt", k.content())
+		w.Write(".goit /c.txt", k.content())
+		w.Write("lib/.goit./d.txt", k.content())
+		w.Write(".GOIT/e.txt", k.content())
+		w.Write(".goit.tmp/f.txt", k.content())
+	}
 	w.Write("keep.txt", k.content())
 }
 
